@@ -75,7 +75,11 @@ Ltac len_arith :=
   abstract_seeded; abstract_elen;
   repeat match goal with H : _ /\ _ |- _ => destruct H end;
   repeat split;
-  repeat match goal with |- context [if ?b then _ else _] => destruct b eqn:? end;
+  repeat match goal with
+         | H : ?b = true |- context [if ?b then _ else _] => rewrite H; cbv beta iota
+         | H : ?b = false |- context [if ?b then _ else _] => rewrite H; cbv beta iota
+         | |- context [if ?b then _ else _] => destruct b eqn:?; cbv beta iota
+         end;
   bool_hyps;
   norm_len;
   first [ reflexivity
@@ -123,3 +127,11 @@ Ltac len_unfold_with unf :=
   repeat (progress (autorewrite with lendb; len_rewrite_ma); unf tt; cbn [elen nth] in * ).
 
 Ltac len_finish := len_arith.
+
+(* 0 <= k for a warm-up expression k, from the admissibility hypotheses *)
+Ltac len_nonneg :=
+  repeat match goal with
+         | |- context [if ?b then _ else _] => destruct b eqn:?; cbv beta iota in *
+         | H : context [if ?b then _ else _] |- _ => destruct b eqn:?; cbv beta iota in *
+         end;
+  bool_hyps; len_lia.
